@@ -68,9 +68,16 @@ def classify(name, desc, job):
             return 'spec', desc, re.findall(r'C\d\d', desc)
         return 'assertion', desc, []
     if cls == 'no-body':
+        if re.search(r'callee __g2c_nondet_\w+$', desc):
+            return 'ignored:nondet-source', desc, []
         return 'no-body', desc, []
     if cls in ('unwind', 'recursion'):
         return 'unwind', desc, []
+    if cls == 'overflow' and re.search(r'(signed|unsigned) to (signed|unsigned) type conversion', desc):
+        # integer <-> integer conversions are modulo 2^N with GCC (implementation-defined, never UB)
+        return 'ignored:int-conversion', desc, []
+    if name.startswith('modeb_harness.'):
+        return 'spec-safety', desc, []      # obligation of the contract text itself
     return 'safety:' + cls, desc, []
 
 def run_job(job, work, tier, cache_dir, versions):
@@ -91,6 +98,8 @@ def run_job(job, work, tier, cache_dir, versions):
         cmd += ['--transparent', s]
     for i in job.get('inc', []):
         cmd += ['--inc', i]
+    for s_ in job.get('structs', []):
+        cmd += ['--struct', s_]
     rc, out, err, secs = sh(cmd, timeout=300)
     res['seconds']['extract'] = round(secs, 2)
     if rc != 0:
@@ -102,18 +111,45 @@ def run_job(job, work, tier, cache_dir, versions):
     res['compile_cmd'] = meta['compile_cmd']
     loops = [k for k, v in meta['rendered'].items() if v['has_loops']]
     res['loops'] = loops
-    # Mode B generation: preprocess the contract file (clause macros expand), then c2h
-    mb = os.path.join(d, 'mb')
+    unwind = job.get('unwind')
+    if loops and not unwind:
+        res['status'] = 'inconclusive'; res['reason'] = 'rendered code has loops (%s) and the job states no bound' % ', '.join(loops)
+        return res
+    if unwind:
+        res['bounded'] = dict(unwind=unwind, why=job.get('unwind_why', 'loops in rendered code'))
+    variants = [('main', 'skip' if job.get('uf') else 'all', [])]
+    if job.get('uf'):
+        variants.append(('uf', 'only', ['G2C_ABSTRACT_MULDIV']))
+        res['uf_abstraction'] = True
+    res['clauses'] = []
+    res['seconds']['goto-cc'] = 0.0; res['seconds']['cbmc'] = 0.0
+    res['checker_cmd'] = ''
+    res['cache_hit'] = True
+    for vname, ufmode, vdefs in variants:
+        ok, why, obs = run_variant(job, d, tag, tier, cache_dir, versions, vname, ufmode, vdefs, res)
+        if not ok:
+            res['status'] = 'inconclusive'; res['reason'] = '%s: %s' % (vname, why)
+            return res
+        if vname == 'uf':
+            obs = [dict(o, name='uf:' + o['name'], variant='uf') for o in obs if o['kind'] in ('ensures', 'known', 'canary')]
+        res['obligations'].extend(obs)
+    if not res['obligations']:
+        res['status'] = 'inconclusive'; res['reason'] = 'cbmc reported no obligations'
+    return res
+
+def run_variant(job, d, tag, tier, cache_dir, versions, vname, ufmode, vdefs, res):
+    """preprocess contract -> c2h -> goto-cc -> cbmc for one variant; returns (ok, why, obligations)"""
+    mb = os.path.join(d, 'mb_' + vname)
     os.makedirs(mb, exist_ok=True)
     cdir = os.path.join(VERIF, 'contracts')
-    pre = os.path.join(d, tag + '.i')
+    pre = os.path.join(d, '%s.%s.i' % (tag, vname))
+    defs = job.get('defines', []) + vdefs
     cmd = ['gcc', '-E', '-x', 'c', '-std=gnu11', '-DMODE_B', '-DPROP(...)=PROP(__VA_ARGS__)', '-DTYPES_H="%s.types.h"' % tag, '-DFNS_C="%s.fns.c"' % tag] + \
-          ['-D' + x for x in job.get('defines', [])] + ['-I' + cdir, '-I' + d, os.path.join(cdir, job['contract']), '-o', pre]
+          ['-D' + x for x in defs] + ['-I' + cdir, '-I' + d, os.path.join(cdir, job['contract']), '-o', pre]
     rc, out, err, secs = sh(cmd, timeout=60)
     if rc != 0:
-        res['status'] = 'inconclusive'; res['reason'] = 'cpp: ' + err.strip()[-400:]
-        return res
-    cmd = [sys.executable, os.path.join(VERIF, 'tools', 'c2h.py'), '--enforce', job['enforce'], '--out', mb]
+        return False, 'cpp: ' + err.strip()[-400:], []
+    cmd = [sys.executable, os.path.join(VERIF, 'tools', 'c2h.py'), '--enforce', job['enforce'], '--out', mb, '--uf-mode', ufmode]
     for r_ in job['replace']:
         cmd += ['--replace', r_]
     kf = [k for k in JOBS.known_findings() if k.get('job') == job['id'] and k.get('clause')]
@@ -122,53 +158,42 @@ def run_job(job, work, tier, cache_dir, versions):
     cmd += [pre]
     rc, out, err, secs = sh(cmd, timeout=60)
     if rc != 0:
-        res['status'] = 'inconclusive'; res['reason'] = 'c2h: ' + err.strip()[-300:]
-        return res
-    res['clauses'] = json.load(open(os.path.join(mb, 'modeb.json')))['clauses']
+        return False, 'c2h: ' + err.strip()[-300:], []
+    res['clauses'].extend(json.load(open(os.path.join(mb, 'modeb.json')))['clauses'])
     flags = list(CBMC_FLAGS) + job.get('cbmc_flags', [])
-    unwind = job.get('unwind')
-    if loops and not unwind:
-        res['status'] = 'inconclusive'; res['reason'] = 'rendered code has loops (%s) and the job states no bound' % ', '.join(loops)
-        return res
-    if unwind:
-        flags += ['--unwind', str(unwind), '--unwinding-assertions']
-        res['bounded'] = dict(unwind=unwind, why=job.get('unwind_why', 'loops in rendered code'))
-    # cache key: the verified text itself + generated harness + flags + tools
+    if job.get('unwind'):
+        flags += ['--unwind', str(job['unwind']), '--unwinding-assertions']
+    src_i = os.path.join(mb, os.path.basename(pre))
     h = hashlib.sha256()
-    for f in [os.path.join(d, tag + '.types.h'), os.path.join(d, tag + '.fns.c')] + sorted(os.path.join(mb, x) for x in os.listdir(mb)):
-        h.update(open(f, 'rb').read())
-    h.update(json.dumps([flags, versions, job.get('defines', [])]).encode())
+    h.update(open(src_i, 'rb').read())
+    h.update(json.dumps([flags, versions]).encode())
     key = h.hexdigest()
-    res['cache_key'] = key
     cf = os.path.join(cache_dir, key + '.json') if cache_dir else None
+    gb = os.path.join(mb, 'a.gb')
+    cc = ['goto-cc', '--function', 'modeb_harness', src_i, '-o', gb]
+    cb = ['cbmc', gb] + flags
+    res['checker_cmd'] += ('' if not res['checker_cmd'] else ' ;; ') + ' '.join(cc) + ' && ' + ' '.join(cb)
     if cf and os.path.exists(cf):
         c = json.load(open(cf))
-        res.update(obligations=c['obligations'], cbmc_rc=c['cbmc_rc'], cache_hit=True)
-        res['seconds'].update(c['seconds_solver'])
-        res['checker_cmd'] = c['checker_cmd']
-        return res
-    gb = os.path.join(mb, 'a.gb')
-    cc = ['goto-cc', '--function', 'modeb_harness', os.path.join(mb, tag + '.i'), '-o', gb]
+        res['seconds']['goto-cc'] += c['seconds_solver']['goto-cc']; res['seconds']['cbmc'] += c['seconds_solver']['cbmc']
+        return True, '', c['obligations']
+    res['cache_hit'] = False
     rc, out, err, secs = sh(cc, timeout=300)
-    res['seconds']['goto-cc'] = round(secs, 2)
+    t_cc = round(secs, 2)
+    res['seconds']['goto-cc'] += t_cc
     if rc != 0:
-        res['status'] = 'inconclusive'; res['reason'] = 'goto-cc: ' + (out + err).strip()[-600:]
-        return res
+        return False, 'goto-cc: ' + (out + err).strip()[-600:], []
     tmo = job.get('timeout', 900 if tier == 'quick' else 3600)
-    cb = ['cbmc', gb] + flags
     rc, out, err, secs = sh(cb, timeout=tmo)
-    res['seconds']['cbmc'] = round(secs, 2)
-    res['checker_cmd'] = ' '.join(cc) + ' && ' + ' '.join(cb)
-    open(os.path.join(d, 'cbmc.log'), 'w').write(out + '\n' + err)
+    t_cb = round(secs, 2)
+    res['seconds']['cbmc'] += t_cb
+    open(os.path.join(d, 'cbmc.%s.log' % vname), 'w').write(out + '\n' + err)
     if rc == -9:
-        res['status'] = 'inconclusive'; res['reason'] = 'cbmc timeout after %ds' % tmo
-        return res
+        return False, 'cbmc timeout after %ds' % tmo, []
     if rc not in (0, 10):
-        res['status'] = 'inconclusive'; res['reason'] = 'cbmc rc=%d: %s' % (rc, (out + err).strip()[-400:])
-        return res
+        return False, 'cbmc rc=%d: %s' % (rc, (out + err).strip()[-400:]), []
     if re.search(r'ignoring forall|SMT2.*Parse Error', out + err):
-        res['status'] = 'inconclusive'; res['reason'] = 'quantifier ignored by back end'
-        return res
+        return False, 'quantifier ignored by back end', []
     obs = []
     cur_file = None
     for ln in out.split('\n'):
@@ -180,24 +205,18 @@ def run_job(job, work, tier, cache_dir, versions):
             name, f2, line, desc, st = m.groups()
             kind, cid, tags = classify(name, desc, job)
             obs.append(dict(name=name, file=f2 or cur_file, line=int(line), desc=desc, status=st, kind=kind, clause=cid, tags=tags))
-    res['obligations'] = obs
-    res['cbmc_rc'] = rc
-    if not obs:
-        res['status'] = 'inconclusive'; res['reason'] = 'cbmc reported no obligations'
-        return res
-    if cf:
+    if cf and obs:
         os.makedirs(cache_dir, exist_ok=True)
-        json.dump(dict(obligations=obs, cbmc_rc=rc, seconds_solver={k: res['seconds'][k] for k in ('goto-cc', 'cbmc')},
-                       checker_cmd=res['checker_cmd']), open(cf + '.tmp', 'w'))
+        json.dump(dict(obligations=obs, cbmc_rc=rc, seconds_solver={'goto-cc': t_cc, 'cbmc': t_cb}), open(cf + '.tmp', 'w'))
         os.replace(cf + '.tmp', cf)
-    return res
+    return True, '', obs
 
 def attribute(ob, job, prop):
     """does obligation `ob` of `job` belong to property `prop`?"""
     k = ob['kind']
     if k in ('ensures', 'known', 'spec'):
         return prop in ob['tags']
-    if k == 'canary' or k == 'no-body' or k == 'model-limit':
+    if k in ('canary', 'no-body', 'model-limit', 'spec-safety') or k.startswith('ignored:'):
         return False
     if k == 'unwind':
         return False
@@ -216,7 +235,9 @@ def make_replay(prop, job, jr, ob, work, replay_dir):
     safe = re.sub(r'[^\w.-]+', '_', ob['name'])
     path = os.path.join(replay_dir, '%s__%s.json' % (job['id'], safe))
     d = os.path.join(work, job['id'])
-    gb = os.path.join(d, 'mb', 'a.gb')
+    vname = ob.get('variant', 'main')
+    gb = os.path.join(d, 'mb_' + vname, 'a.gb')
+    pname = ob['name'][3:] if ob['name'].startswith('uf:') else ob['name']
     rep = dict(property=prop, job=job['id'], function=job['enforce'], source=job['src'], obligation=ob['name'], clause=ob.get('clause'),
                description=ob['desc'], location='%s:%s' % (ob.get('file'), ob.get('line')), reproduced=False)
     trace_txt = ''
@@ -224,7 +245,7 @@ def make_replay(prop, job, jr, ob, work, replay_dir):
         flags = [x for x in CBMC_FLAGS]
         if job.get('unwind'):
             flags += ['--unwind', str(job['unwind'])]
-        rc, out, err, secs = sh(['cbmc', gb] + flags + ['--property', ob['name'], '--trace'], timeout=600)
+        rc, out, err, secs = sh(['cbmc', gb] + flags + ['--property', pname, '--trace'], timeout=600)
         trace_txt = out
     else:
         trace_txt = '(result taken from the solver-result cache; no binary at hand -- rerun with VERIF_NOCACHE=1 for a trace)'
@@ -305,6 +326,9 @@ def main():
                 inconcl.append('%s: call to a function without body or contract: %s' % (j['id'], [o['desc'] for o in obs if o['kind'] == 'no-body'][:3]))
             if any(o['kind'] == 'model-limit' and o['status'] != 'SUCCESS' for o in obs):
                 inconcl.append('%s: exception model limit reached' % j['id'])
+            bad = [o for o in obs if o['kind'] == 'spec-safety' and o['status'] != 'SUCCESS']
+            if bad:
+                inconcl.append('%s: the contract text itself has a failing safety obligation: %s' % (j['id'], bad[0]['desc'][:160]))
             if any(o['kind'] == 'unwind' and o['status'] != 'SUCCESS' for o in obs):
                 inconcl.append('%s: unwinding assertion failed (bound too small)' % j['id'])
             mine = [o for o in obs if attribute(o, j, prop)]
